@@ -1462,7 +1462,66 @@ func (f *fgen) stmt() (terminated bool) {
 			n := 2 + r.Intn(3)
 			for i := 0; i < n; i++ {
 				off := uint32(r.Intn(64))
-				if r.Chance(1, 3) {
+				if r.Chance(1, 4) {
+					// a loaded value waits on the operand stack while overlapping bytes are written through the same
+					// address (plain or atomic store / rmw), and is consumed afterwards: loads must not sink past writes
+					t := []wenc.ValType{i32, i64}[r.Intn(2)]
+					var lc []memOp
+					for _, o := range loadOps {
+						if o.T == t {
+							lc = append(lc, o)
+						}
+					}
+					lo := lc[r.Intn(len(lc))]
+					loadFirst := r.Bool()
+					if !loadFirst {
+						f.expr(t, 1)
+					}
+					c.LocalGet(a)
+					c.Raw(lo.Enc).U32(0).U32(off)
+					f.g.use(lo.Name)
+					off2 := off + uint32(r.Intn(4))
+					c.LocalGet(a)
+					if f.g.cfg.Threads && r.Bool() {
+						var ac []atomicOp
+						for _, x := range atomicOps {
+							if (x.Kind == 1 || x.Kind == 2) && (x.Width == 1 || r.Chance(1, 3)) {
+								ac = append(ac, x)
+							}
+						}
+						x := ac[r.Intn(len(ac))]
+						f.expr(x.T, 1)
+						c.Op(0xfe, x.Sub).U32(log2(x.Width)).U32(off2)
+						if x.Kind == 2 {
+							c.Drop()
+						}
+						f.g.use(x.Name)
+					} else {
+						o := storeOps[r.Intn(len(storeOps))]
+						f.expr(o.T, 1)
+						c.Raw(o.Enc).U32(0).U32(off2)
+						f.g.use(o.Name)
+					}
+					if loadFirst {
+						f.expr(t, 1)
+					}
+					if t == i32 {
+						c.Op([]byte{0x6a, 0x6b, 0x73, 0x71, 0x72}[r.Intn(5)])
+					} else {
+						c.Op([]byte{0x7c, 0x7d, 0x85, 0x83, 0x84}[r.Intn(5)])
+					}
+					if tl := f.localsOf(t); len(tl) > 1 {
+						dst := tl[r.Intn(len(tl))]
+						if dst == a {
+							c.Drop()
+						} else {
+							c.LocalSet(dst)
+						}
+					} else {
+						c.Drop()
+					}
+					f.g.use("load-held-across-write")
+				} else if r.Chance(1, 3) {
 					o := storeOps[r.Intn(len(storeOps))]
 					c.LocalGet(a)
 					f.expr(o.T, d-1)
